@@ -302,6 +302,7 @@ def run(rep, tier, seed, only=None):
                   "step": "each of 19 mutator kinds x several argument choices", "histories": "length <= 3"}
     rep.outside = ["calls that raise (the property speaks of calls that return normally)", "histories longer than 3 beyond the inductive argument",
                    "no value dimension: the program/history dimension is enumerated, not solved"]
+    rep.bounds['rejected calls'] = 'one deliberately invalid variant per mutator kind and pre-state (missing or taken label): after the error the circuit must still be well formed'
     rep.rule = "case = (pre-state, call sequence) whose calls all returned; distinct by pre-state snapshot + calls"
     rep.explanation = "bounded exploration with an independently computed invariant"
     canary(rep)
